@@ -246,6 +246,7 @@ func cmdCheck(prop, tier string) int {
 	)
 	type vkey struct{ part, sig string }
 	best := map[vkey]*Result{}
+	seenIn := map[vkey]int{} // number of runs of the batch that showed the signature
 	for _, p := range cfg.parts {
 		n := p.quick
 		if tier == "thorough" {
@@ -292,6 +293,7 @@ func cmdCheck(prop, tier string) int {
 			}
 			for _, v := range r.Viol {
 				k := vkey{p.name, v.Sig}
+				seenIn[k]++
 				if b, ok := best[k]; !ok || r.TapeLen < b.TapeLen {
 					best[k] = r
 				}
@@ -392,21 +394,22 @@ func cmdCheck(prop, tier string) int {
 		if err != nil || hasSig(final, k.sig) == nil {
 			// fall back to the unminimised tape
 			tape = r.Tape
-			tries := 1
-			if strings.HasPrefix(k.sig, "race:") {
-				// whether the detector sees both accesses can depend on things the code under
-				// test brought in itself (sync.Pool, GC); try a few fresh processes
-				tries = 4
-			}
+			// whether a violation shows again can depend on nondeterminism the code under test
+			// brought in itself and no seam covers (a goroutine in a file that is not
+			// instrumented, the collector); try a few fresh processes
+			tries := 4
 			ok := false
 			for a := 0; a < tries && !ok; a++ {
 				final, err = runTape(prop, p, tier, seedBase, r.Index, r.Tape, true)
 				ok = err == nil && hasSig(final, k.sig) != nil
 			}
 			if !ok {
-				if strings.HasPrefix(k.sig, "race:") && hasSig(r, k.sig) != nil {
-					// a data race was reported during the batch and is kept as a violation even
-					// though this tape does not show it again (recorded in the replay file)
+				if hasSig(r, k.sig) != nil && (strings.HasPrefix(k.sig, "race:") || seenIn[k] >= 2) {
+					// a data race reported during the batch, or an oracle violation that at least
+					// two independent runs of the batch showed, is an observed execution of the real
+					// code and is kept as a violation even though this tape does not show it again
+					// (recorded in the replay file).  Never needed on the unchanged tree, which the
+					// self-test shows to be deterministic under the simulator.
 					deterministic = false
 					final = r
 				} else {
